@@ -65,10 +65,13 @@ def gen(rng, tier):
         eff_idx = rng.sample(range(nv), k)  # effects in an order that differs from the file order
         effects = [[f"v{j}", rng.choice(BETAS)] for j in eff_idx]
         roots = [r for r in ROOTS if len(r) <= nv]
-        if roots and rng.random() < 0.08:
+        if roots and rng.random() < 0.12:
             r = rng.choice(roots)
             effects = [[f"v{j}", b] for j, b in zip(rng.sample(range(nv), len(r)), r)]
-        yield {"data": data, "effects": effects, "h2": rng.choice(H2), "env": rng.choice(ENV), "normalize": True if many_const else rng.random() < 0.7, "K": rng.choice(PREV), "R": rng.randint(1, 3), "tape_seed": rng.randrange(2**31), "bool_matrix": (not repeats) and rng.random() < 0.35}
+        force_default = False
+        if roots and effects and any(abs(sum(b * b for _, b in effects) - 1) < 1e-9 for _ in [0]) and rng.random() < 0.8:
+            force_default = True  # sum beta^2 = 1 up to rounding: mostly with the default noise (neither heritability nor environment)
+        yield {"data": data, "effects": effects, "h2": None if force_default else rng.choice(H2), "env": None if force_default else rng.choice(ENV), "normalize": True if many_const else rng.random() < 0.7, "K": rng.choice(PREV), "R": rng.randint(1, 3), "tape_seed": rng.randrange(2**31), "bool_matrix": (not repeats) and rng.random() < 0.35}
 
 
 class FakeRng:
@@ -220,6 +223,7 @@ def describe(case, obs):
 def gen_files(rng, tier):
     n = 40 if tier == "quick" else 1200
     for t in range(n):
+        big_R = t == 5 or (tier != "quick" and t % 300 == 17)  # more replications than numpy prints without summarising
         ns, nv = rng.randint(3, 10), rng.randint(2, 5)
         data = [[[rng.randint(0, 1), rng.randint(0, 1)] for _ in range(nv)] for _ in range(ns)]
         k = rng.randint(1, nv)
@@ -241,7 +245,7 @@ def gen_files(rng, tier):
                 hap_effects.append({"id": f"H{h}", "vars": [[j, rng.randint(0, 1)] for j in vs], "beta": rng.choice([0.1, 0.5, -0.25, 1.0, 0.3])})
             if h2mode == "none_bigbeta":
                 hap_effects[0]["beta"] = rng.choice([1.0, -1.0, 1.5])
-        yield {"hap_effects": hap_effects, "h2mode": h2mode, "route": route, "data": data, "effects": effects, "extra_lines": rng.sample([j for j in range(nv) if j not in idx], rng.randint(0, nv - k)), "ids": rng.choice([None, None, "subset"]), "samples": rng.choice([None, None, "subset"]), "normalize": rng.random() < 0.6, "K": rng.choice([None, None, 0.3, 0.5]), "R": rng.randint(1, 3), "pgen": rng.random() < 0.3, "seed": rng.randrange(2**31)}
+        yield {"hap_effects": hap_effects, "h2mode": h2mode, "route": route, "data": data, "effects": effects, "extra_lines": rng.sample([j for j in range(nv) if j not in idx], rng.randint(0, nv - k)), "ids": rng.choice([None, None, "subset"]), "samples": rng.choice([None, None, "subset"]), "normalize": rng.random() < 0.6, "K": rng.choice([None, None, 0.3, 0.5]), "R": rng.choice([1001, 1200]) if big_R else rng.randint(1, 3), "pgen": rng.random() < 0.3, "seed": rng.randrange(2**31)}
 
 
 def impl_files(case):
